@@ -634,7 +634,7 @@ func judgeA(c claimA, a authA, o *obsA) []findingB {
 			// justified by i; the SDS answer must stay inside i.NS
 			for ns := range keyNS {
 				if ns != i.NS {
-					add(fmt.Sprintf("a:sds-key-of-unproven-namespace|claimed-namespace=%s|claimed-sa=%s", nsClass(claimNS), orNone(claimSA)),
+					add("a:sds-key-of-unproven-namespace|claimed-namespace="+nsClass(claimNS),
 						fmt.Sprintf("identity %s/%s justifies the connection but the SDS answer carries a key of namespace %s: %s", i.NS, i.SA, ns, brief(&obsB{Resources: o.SDS})))
 				}
 			}
